@@ -32,7 +32,7 @@ CLAIMED = {
          "Seeded deterministic simulation with a ns-resolution virtual clock and virtual sleep: arrivals in bursts and on the scheduled slot +-1 ns/ms against flow and hotspot throttling rules, observed through perform_checking (queues build up) and through build() (the clock must really have moved to the scheduled time).",
          "DESIGN.md §4 C07 / appendix A.4", "deterministic simulation: virtual clock and virtual sleep + seeded arrivals vs reference pacing model", SEQ_NOTE),
  "C08": ("seq", "exploration",
-         "Seeded deterministic simulation of 40-200 simulated seconds of real build() calls per run on a 1..20 ms grid through demand phases (saturating, about q/c, below, idle 0..5p s) under the virtual clock; trajectory invariants on per-second admissions and on the allowance read through the calculator (upper bound q, floor about q/c, monotone ramp reaching q within 2p+2 s, cold start and cold again after idle >= 2p). A second part under the controlled thread scheduler races 2-3 simulated threads on a cold rule at one frozen instant: admissions never exceed the cold allowance by more than one per thread.",
+         "Seeded deterministic simulation of 40-200 simulated seconds of real build() calls per run on a 1..20 ms grid through demand phases (saturating, about q/c, below, idle 0..5p s; one run in three begins with a steered drain that stops traffic with the token bucket exactly on the warning line before an idle gap >= 2p) under the virtual clock; trajectory invariants on per-second admissions and on the allowance read through the calculator (upper bound q, floor about q/c, monotone ramp reaching q within 2p+2 s, cold start and cold again after idle >= 2p). A second part under the controlled thread scheduler races 2-3 simulated threads on a cold rule at one frozen instant: admissions never exceed the cold allowance by more than one per thread.",
          "DESIGN.md §4 C08", "deterministic simulation: long virtual-time trajectories vs trajectory invariants", SEQ_NOTE),
  "C09": ("seq", "exploration",
          "Seeded deterministic simulation of inbound/outbound traffic histories with injected load/CPU readings; system rule sets are (re)loaded mid-history with thresholds resolved below/equal/above the reference's predicted observation, every inbound decision, block type, named rule and reported value compared with the reference.",
